@@ -626,6 +626,14 @@ func respMonitor(w *world, reqs map[string]M, tid string, resp map[string]any, t
 		return ok && num(m["state"]) == 1 && num(m["timeout"]) <= t
 	}
 	kind, _ := reqs[tid]["k"].(string)
+	if monitors["C14"] && !monitors["C04"] && resp["k"] == "searchPromises" {
+		ps, _ := resp["promises"].([]any)
+		for _, p := range ps {
+			if overdue(p) {
+				return "C14", "", fmt.Sprintf("search response reports a pending promise past its timeout at tick %d: %v", t, p)
+			}
+		}
+	}
 	if monitors["C04"] {
 		switch resp["k"] {
 		case "promise", "promiseTask":
@@ -689,6 +697,43 @@ func respMonitor(w *world, reqs map[string]M, tid string, resp map[string]any, t
 			if st >= 40300 && st < 40400 && !strict && c["idempotencyKey"] != nil {
 				if row := rowOf(c["id"]); row != nil && num(row["state"]) != 1 && reflect.DeepEqual(fmt.Sprint(row["idempotencyKeyForComplete"]), fmt.Sprint(c["idempotencyKey"])) {
 					return "C03", "", fmt.Sprintf("non-strict completion carrying the promise's own completion key %v was refused (%d)", c["idempotencyKey"], st)
+				}
+			}
+		}
+	}
+	if monitors["C03"] || monitors["C01"] || monitors["C04"] {
+		// "returns the promise as it stands": the database changes only at exec steps, so w.prev is the store at this
+		// tick. A completed promise never changes, hence a response that reports promise p as completed while the store
+		// already holds p completed must report exactly the stored completion.
+		if p, _ := resp["promise"].(map[string]any); p != nil && num(p["state"]) != 1 && (kind == "ReadPromise" || kind == "CreatePromise" || kind == "CreatePromiseAndTask" || kind == "CompletePromise") {
+			xs, _ := w.prev["promises"].([]any)
+			for _, x := range xs {
+				row, _ := x.(map[string]any)
+				if row == nil || fmt.Sprint(row["id"]) != fmt.Sprint(p["id"]) || num(row["state"]) == 1 {
+					continue
+				}
+				v, _ := p["value"].(map[string]any)
+				nz := func(x any, zero string) string {
+					if x == nil {
+						return zero
+					}
+					return fmt.Sprint(x)
+				}
+				rowv := M{"state": fmt.Sprint(row["state"]), "completedOn": fmt.Sprint(row["completedOn"]), "idempotencyKeyForComplete": fmt.Sprint(row["idempotencyKeyForComplete"]),
+					"value.data": nz(row["valueData"], ""), "value.headers": nz(row["valueHeaders"], "[]")}
+				pv := M{"state": fmt.Sprint(p["state"]), "completedOn": fmt.Sprint(p["completedOn"]), "idempotencyKeyForComplete": fmt.Sprint(p["idempotencyKeyForComplete"]),
+					"value.data": nz(v["data"], ""), "value.headers": nz(v["headers"], "[]")}
+				for _, f := range []string{"state", "completedOn", "idempotencyKeyForComplete", "value.data", "value.headers"} {
+					if rowv[f] != pv[f] {
+						pid := "C03"
+						if !monitors["C03"] {
+							pid = "C01"
+							if !monitors["C01"] {
+								pid = "C04"
+							}
+						}
+						return pid, "", fmt.Sprintf("%s response (status %d) reports promise %v as completed with %s=%v while the store holds it completed with %s=%v (stored state %d, reported state %d)", kind, num(resp["status"]), p["id"], f, pv[f], f, rowv[f], num(row["state"]), num(p["state"]))
+					}
 				}
 			}
 		}
@@ -830,6 +875,32 @@ func (r *runner) apply(w *world, st Step) (M, bool) {
 			if monitors["C01"] {
 				if what := w.c01Observe(m); what != "" {
 					return M{"what": "property monitor failed on an implementation response", "property": "C01", "diff": what, "property_violation": true, "step": st}, false
+				}
+			}
+			if m["e"] == "dispatch" && monitors["C04"] && st.Op == "tick" {
+				// the decision to complete is taken in this tick, at clock st.T, against the store as it stands (w.prev):
+				// at or after the promise's timeout only the time-out form may be written
+				if sub, _ := m["sub"].(map[string]any); sub != nil && sub["k"] == "store" {
+					txs, _ := sub["tx"].([]any)
+					for _, c0 := range txs {
+						cm, _ := c0.(map[string]any)
+						if cm == nil || cm["k"] != "UpdatePromise" {
+							continue
+						}
+						c, _ := cm["c"].(map[string]any)
+						xs, _ := w.prev["promises"].([]any)
+						for _, x := range xs {
+							row, _ := x.(map[string]any)
+							if row == nil || fmt.Sprint(row["id"]) != fmt.Sprint(c["id"]) || jnum(row["state"]) != 1 || jnum(row["timeout"]) > st.T {
+								continue
+							}
+							v, _ := c["value"].(map[string]any)
+							hs, _ := v["headers"].([]any)
+							if (jnum(c["state"]) != 16 && jnum(c["state"]) != 2) || jnum(c["completedOn"]) != jnum(row["timeout"]) || fmt.Sprint(v["data"]) != "" || len(hs) != 0 {
+								return M{"what": "property monitor failed on the implementation", "property": "C04", "diff": fmt.Sprintf("at clock %d, at or after the timeout %d of pending promise %v, a completion other than the time-out form was issued: %v", st.T, jnum(row["timeout"]), c["id"], c), "property_violation": true, "step": st}, false
+							}
+						}
+					}
 				}
 			}
 			if m["e"] == "respond" && monitors["C12"] {
